@@ -24,6 +24,7 @@ import EasyNet.Drv.CancelScope
 import EasyNet.Drv.RecvProto
 import EasyNet.Drv.FlowCtl
 import EasyNet.Drv.Tls08
+import EasyNet.Drv.JRaw
 open EasyNet.Drv
 
 /-- one runner per model family; each returns `none` for model names it does not know -/
@@ -44,6 +45,7 @@ def runners : List (String → List String → List String → Option (List Stri
   , runSend
   , runCancelScope
   , runTls08
+  , runJRaw
   ]
 
 def dispatch (model : String) (cfg : List String) (ops : List String) : Option (List String) :=
